@@ -427,7 +427,40 @@ def _flush_action_counts(res, rid4, stats):
         res.ok(rid4, k[5:], k[5:], "%d action functions, parameters used linearly" % stats.pop(k))
 
 
+def r7_bool_assignment(ctx, res):
+    """`name?=Symbol` binds the PRESENCE of the symbol. The builder records that in Assignment.is_bool; something in the
+    generator (types, actions) has to read it, or the field gets the token's text like any other."""
+    F = ctx.facts("core")
+    rid = res.rule("C10-R7", "a `?=` assignment yields a presence, not the text: the generator reads Assignment.is_bool when it builds "
+                   "types and actions", floor=1)
+    readers, writers = [], 0
+    for path, f in F.fns.items():
+        if f.crate != "rustemo_compiler" or not f.has_body() or "verif_dump" in path:
+            continue
+        hit = False
+        for _, _, st in f.stmts():
+            txt = repr(st.get("rv"))
+            if "'name': 'is_bool'" in txt:
+                hit = True
+            if "'name': 'is_bool'" in repr(st.get("dst")) or ("'is_bool'" in repr((st.get("rv") or {}).get("names"))):
+                writers += 1
+        for _, tm in f.terms():
+            if "'name': 'is_bool'" in repr(tm.get("op")) or "'name': 'is_bool'" in repr(tm.get("args")):
+                hit = True
+        if hit and "::generator::" in path:
+            readers.append(mir.short(path))
+    if not writers and not readers:
+        res.anchor_lost(rid, "field is_bool not found in the compiler")
+    elif readers:
+        res.ok(rid, "bool-assignment-read", None, "read in %s" % readers[:3])
+    else:
+        res.violation(rid, "bool-assignment-unread", "Assignment.is_bool is set by the grammar builder and read nowhere in the generator: "
+                      "`neg?=Minus` gives a field of the terminal's type holding the text (`neg: \"-\"`), not its presence",
+                      "rustemo-compiler/src/generator")
+
+
 def run(ctx, res):
+    r7_bool_assignment(ctx, res)
     rid = res.rule("C10-R1", "every DefaultBuilder reduce arm pops |rhs| symbols (prod_len in right-nulled arms, one arm per "
                    "offered length), binds the content positions p0,p1,.. left to right under the right variant names, and "
                    "calls the action with context, p0..pk in order (None fillers only for the nulled tail)", floor=30)
